@@ -52,8 +52,28 @@ META = {
                   'real doit (three runners, every run under a watchdog) on all small digraphs and sampled larger ones; '
                   'Lean monitor of the full property statement on every implementation run, Python cross-check'),
     'design_ref': '§5 C09, §4 M1, §6.3, §6.4, §7 F-C09a/F-C09b',
-    'level_text': '',       # filled below
-    'level_note': '',
+    'level_text': ('Machine-checked over the M1 transition system, for every task table (task_dep after expansion, calc_dep, '
+                   'setup, calc results), selection, oracle, flag, set-iteration order, worker interleaving and numProcess, in '
+                   'every reachable state: C09_no_false_cycle_serial / _parallel / C09_no_false_cycle -- on an acyclic '
+                   'dependency graph neither the ancestors test of _gen_node nor _check_deadlock ever raises the cyclic '
+                   'error and no run ends with it; C09_no_deadlock_serial -- the serial dispatcher never answers "hold on"; '
+                   'C09_no_deadlock_parallel -- whenever the parallel dispatcher answered "hold on" while the run goes on, a '
+                   'dispatched node is queued / executing / has a result pending / is being fed back (no hypothesis on the '
+                   'graph: this is the repair of F-C09a); C09_dispatched_accounting; C09_cyclic_ends_run_* -- a raised cyclic '
+                   'error ends the run with exit code 3; counterexample theorems for the dispatcher before the repair (serial '
+                   'AttributeError, parallel hang); instances of the diagnosis.  NOT proved, monitored on every '
+                   'implementation run instead: termination of every run (C09_terminates_full) and "a cyclic closure is '
+                   'always diagnosed, no task on the cycle starts" (C09_cycle_diagnosed_full).  The model is tied to doit on '
+                   'every run by trace acceptance of the real doit under a watchdog on all digraphs of the small scope x '
+                   'selections x runners and on sampled graphs with cycles through every edge kind.'),
+    'level_note': ('partial: C09_terminates_full and C09_cycle_diagnosed_full are stated (def ... : Prop) but not proved; the '
+                   'monitor evaluates the full property statement (terminates / exit 3 + Cyclic diagnostic iff the closure '
+                   'graph of the run has a cycle / no task on a cycle executed / acyclic => no cycle error, no hang, no '
+                   'internal hold-on crash) on every run.  Acyclic is a Prop (existence of a rank function), decided per '
+                   'case by a graph search in the harness / driver.  Thread mode: the Cyclic diagnostic is also looked for in '
+                   'the stream of an overlapping python-action, where the process-wide sys.stderr swap of doit (open finding '
+                   'F-C17a of C17) routes it.  A worker process alive 1.5 s after DoitMain.run returned counts as a hang.'),
+    'partial_theorems': ['C09_terminates_full (def, not proved)', 'C09_cycle_diagnosed_full (def, not proved)'],
     'rule': ('(1) exhaustive: every digraph (self-loops included) on <=3 tasks (quick) / <=4 tasks (thorough) over task_dep '
              'x every selection (none, and every ordered non-empty list of distinct task names; 4 tasks: none + sampled) x '
              'serial / thread k=2 (k=3 for the whole-graph selection) / process (sampled); (2) structured families: '
@@ -347,6 +367,9 @@ def exhaustive_specs(tier, boost):
             if tier != 'quick' or boost > 1:
                 specs.append((n, bits, None, 'serial', 0, True))
                 specs.append((n, bits, None, 'thread', 2, True))
+    # whole-graph and single-name selections first: if the budget cuts the tail on a loaded machine, the tail is the
+    # multi-name selections
+    specs.sort(key=lambda sp: 0 if sp[2] is None or len(sp[2]) == 1 else 1)
     if nmax >= 4:
         for bits in range(1 << 16):
             specs.append((4, bits, None, 'serial', 0, False))
